@@ -4,14 +4,20 @@ from ..flow import (resolver, guards_of, aggregates, root_local, const_defs, var
                     edge_facts, show)
 from ..facts import op_const_int, op_local, AnchorMissing
 
-LEVEL = ("decides the code-shape clauses the optimum depends on: Optimal is constructed only after a "
-         "solve came back infeasible / the strengthening failed (SAT-UNSAT) or after the solve under "
-         "the bound assumption succeeded (UNSAT-SAT); the strengthening bound is best−1 on the "
-         "direction-scaled objective as a single upper-bound predicate; direction→scale and "
-         "direction→multiplier tables (Maximise→−1, Minimise→+1) agree in both procedures; the "
-         "UNSAT-SAT assumption is objective ≤ lower_bound(objective) on the same scaled view and the "
-         "hard clause added after a failure is exactly its negation; the incumbent is defined before "
-         "any return. Does not decide that the underlying solves are correct")
+LEVEL = ('decides the code-shape clauses the optimum depends on: Optimal is constructed only after a '
+         'solve came back infeasible / the strengthening failed (SAT-UNSAT) or after the solve under '
+         'the bound assumption succeeded (UNSAT-SAT); the strengthening bound is best−1 on the '
+         'direction-scaled objective as a single upper-bound predicate; direction→scale and '
+         'direction→multiplier tables (Maximise→−1, Minimise→+1) agree in both procedures; the UNSAT-'
+         'SAT assumption is objective ≤ lower_bound(objective) on the same scaled view and the hard '
+         'clause added after a failure is exactly its negation; the incumbent is defined before any '
+         'return. Also runs the KERNEL BUNDLE (rule ids …K<n>): the kernel rules every verdict depends'
+         ' on — predicate algebra, nogood watchers, minimisers, conflict-analysis tables, nogood '
+         'deletion, decision read-back, no-learning resolver, constraint builders, reified reasons — '
+         'wherever they are not already registered here under another id. Also runs the LIFE-CYCLE '
+         'BUNDLE (…L<n>): the typestate rules over arbitrary API sequences of C10 (usable root state '
+         'after every call, inert posting in inconsistent states, entry guards, stored-solution '
+         'extent). Does not decide that the underlying solves are correct')
 TECHNIQUE = "static analysis: dominance / table recovery / def-use over rustc MIR"
 
 LSU = "LinearSatUnsat"
@@ -347,3 +353,7 @@ def run(ctx, led):
     from . import C05 as _C05
     run_rule(led, "O7", "an unsatisfiable-under-assumptions result restores the root state when it is dropped, so a following optimise starts from the model alone (shared with C05-A1)", _C05.a1, ctx)
     run_rule(led, "O8", "UNSAT-SAT adds nothing permanent except the negation of a refuted bound", o8, ctx)
+    from . import kernel as _kernel
+    _kernel.run_bundle(led, ctx, "O")
+    from . import kernel as _kernel2
+    _kernel2.run_lifecycle(led, ctx, "O")
